@@ -284,6 +284,11 @@ func (r *Report) Finish() int {
 		}
 		fmt.Printf("  rule %-10s %4d obligations%s\n", rule, perRule[rule], fl)
 	}
+	if os.Getenv("ANKO_LIST") != "" {
+		for _, o := range r.Obls {
+			fmt.Printf("    %-9s %s %s @%s: %s\n", o.Verdict, o.Rule, o.Instance, o.Site, o.By)
+		}
+	}
 	for _, l := range lines {
 		fmt.Println(l)
 	}
